@@ -35,7 +35,7 @@ TRUSTED = ['OS scheduling, thread switches inside SQLite/NumPy and OS buffering 
            'the numerical value of a routine is a deterministic function of the texts it reads (zone lines and exported lines '
            'of a clean solo run are handed to the model as oracle data)']
 RULE = ('every routine x {no zone, zone absent, zone present} x {export on, off} x {clean, pre-seeded directory with decoy.db, '
-        'ref.db, *.izone, *.lzone, old exports}; pairs of tasks (shared zone cache, same reference / different decoys, disjoint '
+        'ref.db, old and default-named (ref/decoy) *.izone / *.lzone with another zone, old exports}; pairs of tasks (shared zone cache, same reference / different decoys, disjoint '
         'exports, mixed routines) x schedules: all two-switch interleavings around the zone protocol first, then random ones. '
         'Non-trivial: a pre-seeded directory, a zone file written or read, an export, or a schedule with at least one switch '
         'inside the zone protocol.')
@@ -258,6 +258,19 @@ def footprint_case(ctx, rep, M, rng, base, idx, routine, zmode, export, seeded, 
     files = dict(files0)
     if seeded:
         files.update(SEED_FILES)
+        # files named like the zone files the library itself would save by default for these inputs
+        # (<stem>.izone / <stem>.lzone next to the inputs and in the working directory): valid zone
+        # syntax, but a different zone (the first residue of each chain only)
+        first = {}
+        for l in ref_t.splitlines():
+            if l.startswith('ATOM') and l[21] not in first:
+                first[l[21]] = int(l[22:26])
+        stale = ''.join('zone %s%d-%s%d\n' % (ch, n, ch, n) for ch, n in sorted(first.items()))
+        for stem in ('ref', 'decoy'):
+            for ext in ('.izone', '.lzone'):
+                for where in {indir, ''}:
+                    if where + stem + ext != c.get('zone'):
+                        files.setdefault(where + stem + ext, stale)
         if isinstance(export, str):
             files[export + '/keep.txt'] = 'already in the export directory\n'
     d = os.path.join(base, 'f%d' % idx)
